@@ -366,7 +366,10 @@ def as_verdict(desc):
         # L_equals_W = (W - L) / W is a difference of two O(1) terms: its accuracy is rt of those terms, not of itself
         out.close("as/" + c, ph.get_val(A + c), pf.get_val(A + c), rtol=rt, atol=rt if c == "L_equals_W" else 1e-10)
     cmh, cmf = ph.get_val(A + "CM"), pf.get_val(A + "CM")
-    out.close("as/CM_pitch", cmh[1], cmf[1], rtol=rt, atol=1e-9)
+    # the pitching moment about the cg is a small difference of the moments of lift and drag: its accuracy is rt of THOSE
+    # (coefficient x arm / MAC, arm up to a few chords), not of itself
+    cl_ = abs(float(ph.get_val(A + "CL")[0])) + abs(float(ph.get_val(A + "CD")[0]))
+    out.close("as/CM_pitch", cmh[1], cmf[1], rtol=rt, atol=1e-9 + 10.0 * rt * cl_)
     out.le("as/CM_roll_yaw_zero", max(abs(cmf[0]), abs(cmf[2])), 1e-7 * max(abs(cmf[1]), 1e-3))
     for c in ("structural_mass", "cg_location"):
         out.close("as/" + c, ph.get_val("wing." + c), pf.get_val("wing." + c), rtol=1e-10, atol=1e-10)
